@@ -34,6 +34,9 @@ func New[T any](opts ...Option) Tree[T] {
 		size:      0,
 		opts:      o,
 		prevTxn:   &atomic.Pointer[Txn[T]]{},
+		// Transaction IDs start from 1 as 0 is the ID reported by leaf nodes
+		// (which are never mutated in place).
+		nextTxnID: 1,
 	}
 	return t
 }
